@@ -156,8 +156,12 @@ func runC01(o *Out, rng *RNG, tier string, replay string) {
 		n = 6000
 	}
 	aliasList := 0
+	only := replayIndex(replay)
 	for i := 0; i < n; i++ {
 		r := rng.Fork()
+		if only >= 0 && i != only {
+			continue
+		}
 		ln := 1 + r.Intn(30)
 		if r.Chance(15) {
 			ln = 1 + r.Intn(4)
@@ -182,10 +186,12 @@ func runC01(o *Out, rng *RNG, tier string, replay string) {
 				muts++
 			}
 		}
+		desc := hr.desc()
+		desc["index"] = i
 		if hr.fail != "" {
-			o.Fail("plain_tree", hr.fail, hr.sig, hr.desc())
+			o.Fail("plain_tree", hr.fail, hr.sig, desc)
 		}
-		o.AddCase(hr.coqCase(), hr.desc(), histKey(ops), muts > 0)
+		o.AddCase(hr.coqCase(), desc, histKey(ops), muts > 0)
 		// snapshot clause, part 2 (listings): a listing taken earlier must not change when the directory is mutated
 		if i%4 == 0 {
 			if msg := listingSnapshotProbe(r); msg != "" {
